@@ -99,6 +99,7 @@ def handle (cmd : String) (fs : List String) : String :=
     let store := keys.zip ((natList kinds).map kindOf)
     let base := mkKeys (natList bsf) (decodeStrList bsubs) (natList bms) (decodeStrList bns)
     showRows (introBuildoptions store base)
+  | "testser", [d, l] => encodeStrList (testDepends (decodeStrList d)) ++ "#" ++ encodeStr (ldLibraryPath (decodeStrList l))
   | "testdeps", [l] => encodeStrList (testDepends (decodeStrList l))
   | "ldpath", [l] => encodeStr (ldLibraryPath (decodeStrList l))
   | "depnames", [flags, names] =>
